@@ -131,7 +131,7 @@ Qed.
 
 Lemma it_next_good : forall i m ctx its s, igood (it_next spn run m i ctx its s).
 Proof.
-  induction i as [a lo hi|a sep lo hi lead trail|j IHj|f j IHj|f j IHj|a|a lo hi ck|a]; intros m ctx its s; cbn [it_next].
+  induction i as [a lo hi|a sep lo hi lead trail|j IHj|f j IHj|f j IHj|a|a lo hi ck|a|i1 IHi1 i2 IHi2]; intros m ctx its s; cbn [it_next].
   - destruct its; try (cbn; repeat split; discriminate).
     pose proof (rep_next_good m a lo hi ctx n s) as G. destruct (rep_next run m a lo hi ctx n s) as [[[] c'] s1]; exact G.
   - destruct its; try (cbn; repeat split; discriminate).
@@ -149,13 +149,17 @@ Proof.
     + pose proof (HG m (TryMap PFalse FId k Empty) ctx s) as G.
       destruct (run m (TryMap PFalse FId k Empty) ctx s) as [[] s1]; cbn [fst snd] in G;
         [exact I | exact (proj1 G eq_refl) | apply igood_panic; exact G | exact I].
-  - destruct its as [| | | | |[l|]]; try (cbn; repeat split; discriminate).
+  - destruct its as [| | | | |[l|]|]; try (cbn; repeat split; discriminate).
     + destruct l; exact I.
     + pose proof (HG Emit a ctx s) as G. destruct (run Emit a ctx s) as [[] s1]; cbn [fst snd] in G.
       * destruct (val_items (getv v)); exact I.
       * exact (proj1 G eq_refl).
       * apply igood_panic; exact G.
       * exact I.
+  - destruct its as [| | | | | |sa [sb|]]; try (cbn; repeat split; discriminate).
+    + pose proof (IHi2 m ctx sb s) as G. destruct (it_next spn run m i2 ctx sb s) as [[[] js'] s1]; exact G.
+    + pose proof (IHi1 m ctx sa s) as G. destruct (it_next spn run m i1 ctx sa s) as [[[] sa'] s1]; try exact G.
+      pose proof (IHi2 m ctx (mk_iter i2 ctx) s1) as G2. destruct (it_next spn run m i2 ctx (mk_iter i2 ctx) s1) as [[[] sb'] s2]; exact G2.
 Qed.
 
 Lemma drive_good : forall fuel m i ctx its lim pa idx acc s,
@@ -349,7 +353,7 @@ Proof.
            end).
     { intros asserted. pose proof (drive_good _ IH n Check i ctx (mk_iter i ctx) None (fun _ => asserted) 0 [] s) as G.
       destruct (drive spn (go n) n Check i ctx (mk_iter i ctx) None (fun _ => asserted) 0 [] s) as [[[[] ?] ?] ?]; auto with gd. }
-    destruct i as [a lo hi| | | | | | |]; try apply Hd.
+    destruct i as [a lo hi| | | | | | | |]; try apply Hd.
     destruct lo; [destruct hi|]; try apply Hd. apply rep_fast_good; exact IH.
   - (* Collect *)
     match goal with |- context [drive ?a ?b ?c ?d ?e ?f ?g ?h ?pa 0 [] s] =>
@@ -416,6 +420,7 @@ Proof.
   - (* Skip *) auto with gd.
   - (* ExtWrap *) sg IH n m g ctx s.
     destruct (alt s0) as [[q e]|]; [good_err_tac | contradiction].
+  - (* Prog *) destruct (prog_loop toks spn ops (cur s) [] [] s) as [[[] acc] s1]; [auto with gd | good_err_tac].
   - (* Padded *) sg IH n m g ctx (skip_while toks (length toks) ws s); auto with gd.
 Qed.
 
